@@ -22,6 +22,7 @@ Lat8  == {0, 1, 2, 3, 7, 8, 15, 16, 63, 64, 100, 126, 127, 128, 129, 130, 200, 2
 Lat16 == {0, 1, 2, 3, 127, 128, 129, 255, 256, 257, 511, 4095, 4096, 16383, 16384, 21845,
           32766, 32767, 32768, 32769, 32770, 43690, 49152, 65024, 65279, 65280, 65281,
           65533, 65534, 65535}
+Lat16q == {0, 1, 2, 255, 256, 257, 4095, 21845, 32767, 32768, 32769, 43690, 65280, 65534, 65535}
 W  == 8 * L
 TW == 2 ^ W
 HW == 2 ^ (W - 1)
@@ -36,11 +37,16 @@ Pows == {2 ^ i : i \in 0..(W - 1)}
 TruncDiv2(v) == IF v >= 0 THEN v \div 2 ELSE -((-v) \div 2)
 AbsI(v) == IF v < 0 THEN -v ELSE v
 
+DMin == CHOOSE n \in Dom : \A m \in Dom : n <= m
+Succ(n) == IF \E m \in Dom : m > n
+             THEN CHOOSE m \in Dom : m > n /\ \A p \in Dom : p > n => m <= p
+             ELSE DMin
+Load == \/ x' = Lane(Succ(U(x))) /\ op' = "load" /\ UNCHANGED <<y, k>>
+        \/ y' = Lane(Succ(U(y))) /\ op' = "load" /\ UNCHANGED <<x, k>>
+        \/ k' = (IF k = "u" THEN "i" ELSE "u") /\ op' = "load" /\ UNCHANGED <<x, y>>
 \* one initial state; operands are (re)loaded by an action so that TLC's workers
 \* share the evaluation of the invariants
-Init == x = Lane(0) /\ y = Lane(0) /\ k = "u" /\ op = "init"
-Load == \E n \in Dom, m \in Dom, kk \in {"u", "i"} :
-           x' = Lane(n) /\ y' = Lane(m) /\ k' = kk /\ op' = "load"
+Init == x = Lane(DMin) /\ y = Lane(DMin) /\ k = "u" /\ op = "init"
 Next == \/ Load
         \/ \E o \in BinOps : x' = IntBin(o, k, x, y) /\ op' = o /\ UNCHANGED <<y, k>>
         \/ \E o \in UnOps : IntUnDomain(o, k, x) /\ x' = IntUn(o, k, x) /\ op' = o /\ UNCHANGED <<y, k>>
@@ -125,7 +131,7 @@ C07 == LET a == Val(k, x)  b == Val(k, y) IN
        /\ MinK(k, x, y) = Enc(IF a < b THEN a ELSE b)
        /\ MaxK(k, x, y) = Enc(IF a < b THEN b ELSE a)
        /\ Abs(k, x) = Enc(AbsI(a))
-       /\ NegAbs(k, x) = Enc(-AbsI(a))
+       /\ NegAbs(k, x) = Enc(-AbsI(S(x)))     \* on the signed reading, see IntLane
        /\ Negate(TRUE, x) = Enc(-a) /\ Negate(FALSE, x) = x
        /\ Average(k, x, y) = Enc(TruncDiv2(a + b))
        /\ Midpoint(k, x, y) = Enc(a + TruncDiv2(b - a))
